@@ -498,6 +498,20 @@ func (c *corrCtx) runParse(bases []baseCase, n int) {
 		c.checkParse("asa", "router", d)
 		c.checkParse("asa", "router.raw", d)
 	}
+	// an ACL that starts with a remark or standard line and whose extended lines reference object-groups
+	for _, d := range []string{
+		"object-group network g1\n network-object host 10.1.1.1\naccess-list A remark first\naccess-list A extended permit ip object-group g1 any4\naccess-group A global\n",
+		"access-list A remark first\naccess-list A extended permit ip object-group g1 object-group g2\n",
+		"object-group network g1\n network-object host 10.1.1.1\naccess-list S standard permit 10.1.1.0 255.255.255.0\naccess-list S extended permit ip object-group g1 any4\n",
+		"object-group network g1\n network-object host 10.1.1.1\naccess-list A remark r\naccess-list A remark r2\naccess-list A extended permit tcp object-group g1 any4 eq 80\naccess-list B remark r\naccess-list B extended deny ip any4 object-group g1\n"} {
+		c.checkParse("asa", "router", d)
+		c.checkParse("asa", "router.raw", d)
+	}
+	for _, d := range []string{"ip access-list extended A\n remark first\n permit ip object-group g1 any\n",
+		"object-group network g1\n host 10.1.1.1\nip access-list extended A\n remark first\n permit ip object-group g1 any\n"} {
+		c.checkParse("ios", "router", d)
+		c.checkParse("ios", "router.raw", d)
+	}
 	for _, w := range []string{" ", "   ", "\t", " \t ", "\r", "  \r"} {
 		for _, d := range []string{"interface E0\n@\n nameif inside\n", "@\ninterface E0\n nameif inside\n@\n shutdown\n@", "foo\n@\n x\n",
 			"access-list A extended permit ip any4 any4@\n@\naccess-group A global@\n", "interface E0@\n  nameif a@\n@\n shutdown\n"} {
